@@ -15,17 +15,21 @@ import (
 
 // CheckCtx is the state of one check invocation (one property, one tier).
 type CheckCtx struct {
-	Prop      string
-	Tier      string
-	Seed      int64
-	Env       *Env
-	Par       int
-	Deadline  time.Time
-	MaxSims   int
-	Findings  *Findings
-	Out       io.Writer
-	ReplayDir string
-	VerifDir  string
+	Prop     string
+	Tier     string
+	Seed     int64
+	Env      *Env
+	Par      int
+	Deadline time.Time
+	// MinSims / HardDeadline: see Expired
+	MinSims      int
+	HardDeadline time.Time
+	started      atomic.Int64
+	MaxSims      int
+	Findings     *Findings
+	Out          io.Writer
+	ReplayDir    string
+	VerifDir     string
 
 	// RaceSamples: how many scenarios are re-executed with the -race worker after the exploration.
 	RaceSamples int
@@ -60,7 +64,16 @@ type altScenario struct {
 }
 
 // Expired reports whether the time budget is used up.
-func (c *CheckCtx) Expired() bool { return time.Now().After(c.Deadline) }
+// Expired: the wall-clock budget is used up. On a busy machine the budget of the quick tier would cut the batch
+// short and with it what the tier covers, so there the budget only counts once MinSims simulations have been
+// started; HardDeadline bounds that.
+func (c *CheckCtx) Expired() bool {
+	now := time.Now()
+	if !now.After(c.Deadline) {
+		return false
+	}
+	return int(c.started.Load()) >= c.MinSims || c.HardDeadline.IsZero() || now.After(c.HardDeadline)
+}
 
 // RunScenario executes sc, records the violations of this check's property and
 // returns the outcome.
@@ -204,10 +217,14 @@ func (c *CheckCtx) Explore(label string, f SimFunc) {
 		go func() {
 			defer wg.Done()
 			for {
-				i := int(next.Add(1) - 1)
-				if i >= c.MaxSims || c.Expired() {
+				if c.Expired() {
 					return
 				}
+				i := int(next.Add(1) - 1)
+				if i >= c.MaxSims {
+					return
+				}
+				c.started.Add(1)
 				if only := os.Getenv("VERIF_ONLY"); only != "" && only != fmt.Sprint(i) {
 					continue
 				}
